@@ -7,6 +7,7 @@ RULES = {
     "O1": "the sequence stored in a snapshot must encode queue position: flagged iff the listing function reached from PriceLevel::snapshot reads no ticket-queue state and orders its result solely by map iteration and the user-supplied timestamp",
     "O2": "restore pushes the listed orders in listed order (forward iteration, one push per element)",
     "O3": "the listing is not re-ordered by anything else (exactly one sort, keyed on timestamp() alone, ascending)",
+    "O5": "restore rebuilds the queue from exactly the listed order sequence: refresh_aggregates does not alter the list, and the queue constructor receives that very list (not a filtered / re-ordered copy)",
     "O4": "both levels queue the same way: the live queue's primitives keep their FIFO shape (push = insert + ticket; pop = entry of the ticket taken; remove only deletes the map entry) and nobody else touches the containers, so the original and the restored level order identical pushes identically",
 }
 
@@ -40,6 +41,9 @@ def run(ctx, chk):
     Q.rule_remove_find(chk, "O4")
     Q.who_may(chk, "O4")
     Q.rule_constructors(chk, "O2")
+    from ..level import LevelAnalysis
+    from .c01 import check_constructors
+    check_constructors(ctx, chk, LevelAnalysis(ctx), rid="O5", rid0="O5")
     Q.rule_to_vec(chk, "O3")
     # restore path: from_snapshot builds the queue from snapshot.orders via From<Vec>
     for nm, tr in (("from_snapshot", None), ("from", "From<&price_level::snapshot::PriceLevelSnapshot>")):
